@@ -8,7 +8,10 @@ from .fprog.model import walk_stmts, pathstr
 # internal=False: an internal procedure of the generator always reads host variables, which the (intra-procedural)
 # analysis does not see at the CALL (listed known finding of C26/C27, kept alive by its replay file) -- excluded by
 # construction so that every call-related miss the search reports is new
-PROFILE = gen.profile(print=False, intent_none=True, comments=False, layout='nosemi', max_stmts=6, internal=False)
+# named_exit=False: `EXIT/CYCLE <construct-name>` is dropped / mis-parsed by the frontend (C01 finding, fix pending:
+# .scratch/fixes/C01-named-cycle-exit): the IR the analysis sees would not be the program that runs
+PROFILE = gen.profile(print=False, intent_none=True, comments=False, layout='nosemi', max_stmts=6, internal=False,
+                      named_exit=False)
 EXCLUDED_BY_CONSTRUCTION = ('internal procedure that reads host variables not generated '
                             '(known: host-association-of-internal-procedure)')
 
@@ -145,9 +148,14 @@ def set_alias_map(case):
     return dict(_ALIAS)
 
 
-def names_of(symbols):
+def names_of(symbols, fold=True):
     out = {str(getattr(s, 'name', s)).lower().split('%')[0] for s in symbols}
-    return {_ALIAS.get(x, x) for x in out} if _ALIAS else out
+    return {_ALIAS.get(x, x) for x in out} if _ALIAS and fold else out
+
+
+def spelled_names_of(symbols):
+    """names exactly as loki spells them (associate names are NOT folded to their selectors)"""
+    return names_of(symbols, fold=False)
 
 
 def loki_bodies(n):
